@@ -1,7 +1,7 @@
 (* C07 — Conversions, copies, transposes and sums preserve the represented operator.
    Property-level theorems only; each is closed by a lemma from Sparse/*Proofs.v.
    `den_X A i j` is the sum of all stored values of A at (i,j): the operator A represents. *)
-From Raptor Require Import Base.Sums Sparse.Defs Sparse.ConvertProofs Sparse.SortProofs.
+From Raptor Require Import Base.Sums Sparse.Defs Sparse.ConvertProofs Sparse.SortProofs Sparse.Block Sparse.BlockProofs.
 
 Section C07.
 Variable F : Type.
@@ -117,6 +117,21 @@ Proof.
   intros; apply (den_csr_subtract F zero one add mul sub opp Fth); exact Hl.
 Qed.
 
+(* BSR -> CSR (block storage to scalar storage): the scalar matrix represents, at (I*br + r, J*bc + c), the sum of the
+   (r, c) entries of the stored blocks at (I, J), provided the scalars the conversion drops (|v| <= zero_tol) are exact zeros *)
+Theorem C07_bsr_to_csr (big : F -> bool) br bc (A : csr (list F)) : csr_wf A ->
+  (forall e, In e (coo_ents (bsr_expand zero br bc A)) -> big (eval e) = false -> eval e = zero) ->
+  (forall i j, denCsr (bsr_to_csr zero big br bc A) i j = denCoo (bsr_expand zero br bc A) i j) /\
+  (forall I J r c, r < br -> c < bc ->
+     denCoo (bsr_expand zero br bc A) (I * br + r) (J * bc + c)
+     = sumf F zero add (map (fun e => nth (r * bc + c) (eval e) zero)
+                            (filter (fun e => (erow e =? I) && (ecol e =? J)) (coo_ents (csr_to_coo A))))) /\
+  csr_nr (bsr_to_csr zero big br bc A) = csr_nr A * br /\ csr_nc (bsr_to_csr zero big br bc A) = csr_nc A * bc.
+Proof.
+  intros Hwf Hz. split; [intros; apply (bsr_to_csr_den F zero one add mul sub opp Fth); assumption|].
+  split; [intros; apply (bcoo_expand_den F zero one add mul sub opp Fth); assumption|split; reflexivity].
+Qed.
+
 End C07.
 
 Print Assumptions C07_coo_to_csr.
@@ -133,3 +148,4 @@ Print Assumptions C07_sort.
 Print Assumptions C07_move_diag.
 Print Assumptions C07_remove_duplicates.
 Print Assumptions C07_add_subtract.
+Print Assumptions C07_bsr_to_csr.
